@@ -313,7 +313,7 @@ func (f *streamFactory) CreateReplicaServiceClient(target models.Node) (protoRep
 	if p == nil {
 		return nil, errors.New("unknown follower")
 	}
-	p.disturbed, p.putDisturbed = false, false // a handshake of this channel starts
+	p.disturbed, p.putDisturbed, p.fcloseDisturbed = false, false, false // a handshake of this channel starts
 	if f.w.fault == "cli" {
 		return nil, errors.New("injected client failure")
 	}
@@ -338,9 +338,10 @@ type peer struct {
 	stopped bool                // the group is not registered on the leader (never added, or stopped by IsExpire)
 	born    bool                // the group's directory exists on the leader
 
-	lostWake     bool // an online notification was delivered after the loop marked itself suspended and the loop stayed parked
-	putFailOnce  bool // the next Put on this follower's queue fails
-	putDisturbed bool // a follower Put fault left the channel ready and out of step (until its next handshake)
+	lostWake        bool // an online notification was delivered after the loop marked itself suspended and the loop stayed parked
+	putFailOnce     bool // the next Put on this follower's queue fails
+	fcloseDisturbed bool // the follower partition was destroyed under the (maybe open) stream; until the next handshake
+	putDisturbed    bool // a follower Put fault left the channel ready and out of step (until its next handshake)
 
 	fwEpoch   map[int64]int // follower position -> epoch of the leader bytes it received
 	disturbed bool          // the other channel's handshake reset the leader's append index while this channel was ready
@@ -426,14 +427,28 @@ func (w *world) openLeader() error {
 	ctx, cancel := context.WithCancel(context.Background())
 	w.cancel = cancel
 	w.lp = replica.NewPartition(ctx, w.shard, w.family, leaderID, q, &streamFactory{w: w}, w.sm)
+	// what writeAheadLog.recovery does with a partition found on disk: partition.recovery rebuilds the
+	// replication channel of every consumer group in the log directory
+	if err := replica.VerifPartitionRecovery(w.lp, leaderID); err != nil {
+		return err
+	}
+	names := map[string]bool{}
+	for _, n := range q.ConsumerGroupNames() {
+		names[n] = true
+	}
 	for _, p := range w.peers {
 		p.grp = nil
 		p.stopped = !p.born
 		p.disturbed, p.putDisturbed = false, false
+		if p.born != names[strconv.Itoa(int(p.id))] {
+			return fmt.Errorf("group directory of follower %s: harness says born=%v, the log says %v", p.name, p.born, !p.born)
+		}
 		if p.born {
-			if err := w.join(p); err != nil {
+			g, err := q.GetOrCreateConsumerGroup(strconv.Itoa(int(p.id)))
+			if err != nil {
 				return err
 			}
+			p.grp = g
 		}
 	}
 	return nil
@@ -503,7 +518,11 @@ func newWorld() (*world, error) {
 			return nil, err
 		}
 	}
+	w.peers[0].born = false // nothing on disk yet: the first follower is added by BuildReplicaForLeader
 	if err := w.openLeader(); err != nil {
+		return nil, err
+	}
+	if err := w.join(w.peers[0]); err != nil {
 		return nil, err
 	}
 	return w, nil
@@ -685,7 +704,8 @@ func (w *world) observe() obs {
 			po.susp = p.pending != nil
 		}
 		po.parked = p.pending != nil
-		po.synced = po.chanSt == "ready" && po.stream == "up"
+		// (a stream whose handler holds a destroyed partition is not "really there" for the oracle)
+		po.synced = po.chanSt == "ready" && po.stream == "up" && !p.fcloseDisturbed
 		parts = append(parts, fmt.Sprintf("%s: c=%d g=%d F=%s %s %s live=%s susp=%s park=%s stop=%s born=%s", strings.ToUpper(p.name), po.cons, po.gack, fs,
 			po.chanSt, po.stream, b01(p.live), b01(po.susp), b01(po.parked), b01(p.stopped), b01(p.born)))
 	}
@@ -799,7 +819,7 @@ func (w *world) label(r string) string {
 			return "sendfail"
 		case w.recvFailed:
 			return "recvfail"
-		case w.lastResp != nil && w.lastReq != nil && w.lastResp.AckIndex == w.lastReq.ReplicaIndex:
+		case w.lastResp != nil && w.lastReq != nil && w.lastResp.Err == "" && w.lastResp.AckIndex == w.lastReq.ReplicaIndex:
 			return "acked"
 		default:
 			return "mismatch"
@@ -851,7 +871,7 @@ func (w *world) apply(op string, pre obs) (string, *peer, error) {
 			return "bad-op", nil, nil
 		}
 		p = w.peerByName(ws[1])
-	case "frestart", "flose", "offline", "join":
+	case "frestart", "flose", "fclose", "offline", "join":
 		if len(ws) != 2 {
 			return "bad-op", nil, nil
 		}
@@ -871,7 +891,7 @@ func (w *world) apply(op string, pre obs) (string, *peer, error) {
 	default:
 		return "bad-op", nil, nil
 	}
-	if (ws[0] == "step" || ws[0] == "online" || ws[0] == "steponl" || ws[0] == "frestart" || ws[0] == "flose" || ws[0] == "offline" || ws[0] == "join") && p == nil {
+	if (ws[0] == "step" || ws[0] == "online" || ws[0] == "steponl" || ws[0] == "frestart" || ws[0] == "flose" || ws[0] == "fclose" || ws[0] == "offline" || ws[0] == "join") && p == nil {
 		return "bad-op", nil, nil
 	}
 	if ws[0] == "append" && ws[1] != "-" {
@@ -924,6 +944,18 @@ func (w *world) apply(op string, pre obs) (string, *peer, error) {
 			return "", p, err
 		}
 		p.fwEpoch = map[int64]int{}
+		return "idle", p, p.open()
+	case "fclose":
+		// the follower's WAL GC destroys the partition (or the WAL is closed) while the leader's stream may be
+		// open and idle: the handler goroutine of that stream keeps the CLOSED partition; a fresh, empty one
+		// serves every later getOrCreatePartition. The session is NOT touched.
+		old := p.fp
+		_ = old.Close()
+		if err := os.RemoveAll(p.dir); err != nil {
+			return "", p, err
+		}
+		p.fwEpoch = map[int64]int{}
+		p.fcloseDisturbed = true
 		return "idle", p, p.open()
 	case "offline":
 		p.live = false
@@ -1157,7 +1189,7 @@ func (w *world) check(c *core.Ctx, op, out string, ep *peer, pre, post obs) {
 		}
 		// (the answer to a request whose Put failed on the follower is a correct report, not a mismatch
 		// of the two sides; what matters is whether the channel is left out of step, checked above)
-		if mine && out == "mismatch" && !w.putFailed {
+		if mine && out == "mismatch" && !w.putFailed && (w.lastResp == nil || w.lastResp.Err == "") {
 			fail("mismatched-answer", fmt.Sprintf("%q: follower answered %d to offered index %d", op, w.lastResp.AckIndex, w.lastReq.ReplicaIndex))
 		}
 		if mine && out == "ignored" {
@@ -1166,6 +1198,14 @@ func (w *world) check(c *core.Ctx, op, out string, ep *peer, pre, post obs) {
 		// (4b) an online notification delivered after the loop marked itself suspended is never lost
 		if mine && p.lostWake && strings.HasPrefix(op, "steponl") {
 			fail("online-notification-lost", fmt.Sprintf("%q: NodeOnline was delivered between the loop's isSuspend CAS and its receive on r.suspend; the handler returned, the loop is still parked (isSuspend=%v) and nothing will wake it", op, po.susp))
+		}
+		// (4c) after a leader restart every follower that has a consumer group in the leader's log has its
+		// replication channel again (replicator + node-online watcher), whether it is online right now or
+		// not — otherwise nothing will ever resume it
+		if restart && p.born && !p.stopped {
+			if _, _, _, ok := replica.VerifC08ReplicatorInfo(w.lp, p.id); !ok {
+				fail("channel-not-rebuilt-after-leader-restart", fmt.Sprintf("after %q the leader's log has a consumer group for the follower (consumed %d, ack %d, leader appended %d, follower live=%v) but no replicator was rebuilt: the channel cannot resume when the follower is (back) online", op, po.cons, po.gack, post.lApp, p.live))
+			}
 		}
 		// (5) the leader never discards a position this follower has not acknowledged
 		if !restart && po.stopped && !pr.stopped && post.lApp > po.gack {
@@ -1227,8 +1267,10 @@ func genCase(rng *rand.Rand, tier string, idx int) []string {
 			ops = append(ops, "step "+who()+" "+faults[1+rng.Intn(len(faults)-1)])
 		case r < 71:
 			ops = append(ops, "frestart "+who())
-		case r < 74:
+		case r < 73:
 			ops = append(ops, "flose "+who())
+		case r < 74:
+			ops = append(ops, "fclose "+who())
 		case r < 78:
 			ops = append(ops, "lsnap")
 		case r < 83:
@@ -1263,14 +1305,14 @@ func genCase(rng *rand.Rand, tier string, idx int) []string {
 			ops = append(ops, "expire")
 		}
 		if malformed && rng.Intn(6) == 0 {
-			bad := []string{"step a bogus", "step c none", "append zz", "append", "lrestore x", "lrestore -1", "online a", "restart", "append A1", "step none", "flose", "expire now", "join", "join c", "step a putt", "steponl a", "steponl c none"}
+			bad := []string{"step a bogus", "step c none", "append zz", "append", "lrestore x", "lrestore -1", "online a", "restart", "append A1", "step none", "flose", "expire now", "join", "join c", "step a putt", "steponl a", "steponl c none", "fclose", "fclose c"}
 			ops = append(ops, bad[rng.Intn(len(bad))])
 		}
 	}
 	return ops
 }
 
-// fixed histories replayed on every run (cases 0..8)
+// fixed histories replayed on every run (cases 0..10)
 var fixedCases = [][]string{
 	// 0: known finding: the leader loses its tail and re-appends beyond the follower before the handshake
 	{"append a0", "append a1", "append a2", "append a3", "step a none", "step a none", "step a none", "step a none",
@@ -1302,6 +1344,13 @@ var fixedCases = [][]string{
 	// 8: the online notification lands between the loop's isSuspend CAS and its receive on r.suspend
 	{"append a0", "step a none", "append a1", "offline a", "steponl a none", "append a2", "step a none",
 		"step a send", "offline a", "step a none", "online a none", "offline a", "steponl a none"},
+	// 9: the leader restarts (partition.recovery) while a follower with a backlog is offline; the follower comes back
+	{"join b", "append a0", "step a none", "step b none", "offline a", "append a1", "append a2", "step b none", "lrestart",
+		"step b none", "step a none", "online a none", "step a none", "step a none", "lsnap", "offline b", "append a3", "lrestore 0",
+		"online b none", "step b none", "step b none"},
+	// 10: the follower's partition is destroyed under the leader's open, idle stream - at replica index 0, and later again
+	{"step a none", "fclose a", "append a0", "step a none", "step a none", "append a1", "step a none", "fclose a", "append a2",
+		"step a none", "step a none", "step a none", "step a none"},
 }
 
 var curWorld *world
